@@ -169,7 +169,7 @@ def check(case, ctx):
             return
         warned = S.threshold_warned(msgs)
         R = S.resolve_request(req, N)
-        idx = np.asarray(sel.selected_idx_)
+        idx = np.array(sel.selected_idx_, copy=True)
         nsel = sel.n_selected_
         p = rec.calls[0][0] - (prior if step > 0 else 0) if rec.calls else None   # pre-loop selections of this fit
         pre = rec.calls[0][0] if rec.calls else nsel
@@ -258,6 +258,9 @@ def check(case, ctx):
             with ctx.lib("transform"):
                 Xt = sel.transform(X)
             ctx.equal("transform==X[:,mask]", Xt, X[:, exp], where)
+        # the views are read-only: after querying them the reported sequence is still the same
+        ctx.equal("views-leave-sequence-intact", np.asarray(sel.selected_idx_), idx, where + ": selected_idx_ after the get_support / transform calls")
+        ctx.equal("views-repeatable", np.asarray(sel.get_support(indices=True, ordered=True)), idx, where + ": ordered indices queried a second time")
         # ---- non-trivial classification -------------------------------------------------
         if warned:
             stopped = True
